@@ -299,6 +299,15 @@ SPECIAL = [
     (["x", "st"], "len([x, st, x]) > 100 and (x, st) is None", {"x": 1, "st": "STRICTEQ"}),
     (["x", "we"], "[we, x][1] > 100", {"x": 1, "we": "WEIRDEQ"}),
     (["x", "we"], "len((x, we, [we])) > 100", {"x": 1, "we": "WEIRDEQ"}),
+    # C-level callables that are neither functions, methods nor built-in functions ARE values
+    (["x", "key"], "x > 100", {"x": 1, "key": "METHDESC"}),
+    (["x", "op"], "op is None and x > 100", {"x": 1, "op": "SLOTWRAP"}),
+    (["x", "ln"], "ln() > 100 or x > 100", {"x": 1, "ln": "METHWRAP"}),
+    (["x", "settings"], "x > 100", {"x": 1, "settings": "MODULESUB"}),
+    (["x", "settings"], "settings is None or x > 100", {"x": 1, "settings": "MODULESUB"}),
+    # a generator the condition consumes lazily
+    (["g", "xs"], "next(g(10, xs)) > 3", {"g": "GENFUNC", "xs": [5, 0]}),
+    (["g", "xs"], "any(e > 100 for e in g(10, xs)) or next(g(7, xs)) > 100", {"g": "GENFUNC", "xs": [5, 2]}),
     # `all` is what the name resolves to, not how it is spelled
     (["xs", "all"], "all(e > 0 for e in xs)", {"xs": [1, 2], "all": "OWNALL"}),
     (["xs", "all"], "all(e > 0 for e in xs) or len(xs) > 100", {"xs": [], "all": "OWNALL"}),
